@@ -189,3 +189,40 @@ pub fn par_map<T: Send, F: Fn(usize) -> T + Sync>(n: usize, f: F) -> Vec<T> {
     all.sort_by_key(|x| x.0);
     all.into_iter().map(|x| x.1).collect()
 }
+
+/// field-wise difference of two values via their `Debug` rendering: returns (field names, text)
+pub fn debug_diff<T: std::fmt::Debug>(a: &T, b: &T) -> (Vec<String>, String) {
+    let sa = format!("{a:#?}");
+    let sb = format!("{b:#?}");
+    let mut names: Vec<String> = vec![];
+    let mut text: Vec<String> = vec![];
+    let mut cur = String::new();
+    let la: Vec<&str> = sa.lines().collect();
+    let lb: Vec<&str> = sb.lines().collect();
+    // top-level fields start with exactly four spaces of indentation
+    let split = |ls: &[&str]| -> Vec<(String, String)> {
+        let mut out: Vec<(String, String)> = vec![];
+        for l in ls {
+            if l.starts_with("    ") && !l.starts_with("     ") && l.contains(':') {
+                let name = l.trim().split(':').next().unwrap_or("").to_string();
+                out.push((name, l.trim().to_string()));
+            } else if let Some(last) = out.last_mut() {
+                last.1.push(' ');
+                last.1.push_str(l.trim());
+            }
+        }
+        out
+    };
+    let fa = split(&la);
+    let fb = split(&lb);
+    for (x, y) in fa.iter().zip(fb.iter()) {
+        if x != y {
+            names.push(x.0.clone());
+            let mut t = format!("{} | {}", x.1, y.1);
+            t.truncate(400);
+            text.push(t);
+        }
+    }
+    let _ = &mut cur;
+    (names, text.join(" ;; "))
+}
